@@ -384,6 +384,10 @@ impl EncryptedKeyStorageManager {
         self.encrypt_and_store(password, &salt, &nonce, &key_data)
             .await?;
 
+        // The previous contents of the storage are gone: keys cached from it
+        // must not be served any more
+        self.clear_cache()?;
+
         // Update statistics
         {
             let mut stats = self.stats.lock().map_err(|_| {
